@@ -26,10 +26,12 @@ def scenario(v, wd, name, kinds, thorough, out):
             r["op"] = "reuse+clear" if "clear" in ops else "create" if "create" in ops else "reuse" if "reuse" in ops else "-"
         return o
 
-    def topen(k):
+    def topen(k, control=False):
         c = w.open_tunnel(k)
         if c is None:
-            raise vlib.ToolError("could not open a tunnel through %s" % k)
+            if control:
+                raise vlib.ToolError("could not open a tunnel through %s" % k)
+            return None         # the probes next to it tell the story
         tid[0] += 1
         w.rec({"ev": "topen", "kind": k, "tid": tid[0]})
         return (tid[0], c)
@@ -71,7 +73,7 @@ def scenario(v, wd, name, kinds, thorough, out):
                 if probe(k, "warm") != "ok":
                     raise vlib.ToolError("positive control failed: %s" % w.last_probe[k])
             # ---- outage 1: killed mid-transfer, probes while away, restart ----
-            ts = [topen(k)] + ([topen(k)] if k == "lb" else [])
+            ts = [topen(k, True)] + ([topen(k, True)] if k == "lb" else [])
             w.down(k, "kill")
             if quic:
                 # nobody tells a QUIC client that the peer is gone: requests hang until the idle timer
@@ -95,7 +97,7 @@ def scenario(v, wd, name, kinds, thorough, out):
             # from here on the model demands success (Recovery)
             for _ in range(3):
                 probe(k, "recovered")
-            ts = [topen(k)]
+            ts = [t for t in [topen(k)] if t]
             # ---- outage 2: the upstream stalls (accepts, never answers), continues ----
             if k != "direct":
                 w.down(k, "stall")
